@@ -1075,7 +1075,7 @@ func TestVerifC11Sched(t *testing.T) {
 	setup(t)
 	r := ev.Start(t, "C11")
 	defer r.Finish()
-	r.Rule("all interleavings (no preemption bound) of concurrent StatusList2021.Entry calls, optionally with a Revoke of an earlier entry and a Credential() of the page, " +
+	r.Rule("all interleavings (no preemption bound, except the four-thread set of the thorough tier: complete up to 3 preemptions) of concurrent StatusList2021.Entry calls, optionally with a Revoke of an earlier entry and a Credential() of the page, " +
 		"scheduling points at SQL transaction begin and at every standalone statement (the single SQLite connection is a virtual lock); start states: no page yet, page in use, page one slot before roll-over")
 	r.Assume("inside one SQL transaction no other thread runs (SQLite with one connection); SELECT FOR UPDATE semantics of server databases are not explored")
 
@@ -1083,7 +1083,7 @@ func TestVerifC11Sched(t *testing.T) {
 	// E = Entry (2 steps: start, transaction), R = Revoke (4: start, 2 statements, transaction), C = Credential (3)
 	threadSets := []string{"EE", "EEE", "EER", "EEC"} // 6, 90, 420, 210 interleavings
 	if r.Thorough() {
-		threadSets = []string{"EE", "EEE", "EER", "EEC", "ERC", "EERC"} // + 1 260, 69 300
+		threadSets = []string{"EE", "EEE", "EER", "EEC", "ERC", "EERC"} // + 1 260 (complete), 69 300 (up to 3 preemptions)
 	}
 	deadline := time.Now().Add(10 * time.Minute)
 	if v, err := strconv.Atoi(os.Getenv("VERIF_BUDGET_S")); err == nil && v > 0 {
@@ -1108,6 +1108,11 @@ func TestVerifC11Sched(t *testing.T) {
 				continue
 			}
 			opts := sched.Options{Bound: -1, Shard: shard, NSh: nsh, SelfCheck: true, MaxSteps: 5000, Deadline: deadline}
+			if ths == "EERC" {
+				// four threads, 11 steps: 69 300 interleavings; explored completely up to 3 preemptions (CHESS bound)
+				opts.Bound = 3
+				r.Bound("preemption_bound "+start+"/"+ths, 3)
+			}
 			if replay {
 				opts.Replay = rc.Schedule
 				if opts.Replay == nil {
